@@ -262,6 +262,42 @@ void h_IC2C_fill(void)
   REACH("exit");
 }
 
+/* ---- the two-index overloads (observation point of C01: GFContainer::operator()(i,j)): forwards to the pair versions with the
+ * pair (i,j) in this order */
+//@rename GFContainer_call/1 => IC2C_call
+//@function Pomerol::IndexContainer2<Pomerol::GreensFunction, Pomerol::GFContainer>::operator()(unsigned int, unsigned int) as IC2C_call_ij
+//@contract
+__CPROVER_requires(__CPROVER_is_fresh(self, sizeof(*self)) && self->pSource == self && g_self == self && g_created == 0)
+__CPROVER_requires(PRES_WF(EM) && INV(EM))
+__CPROVER_assigns(EM, g_created, g_created_X, g_created_for, g_created_el)
+__CPROVER_ensures(PRES_WF(EM) && INV(EM))
+/* (g: X = (i,j)) the element returned is the one stored under (i,j), created by createElement for (i,j) */
+__CPROVER_ensures((Index1 == g_X.Index1 && Index2 == g_X.Index2) ==> (EM.gpresent && __CPROVER_return_value == EM.g.second.p && EM.g.second.creator.Index1 == Index1 && EM.g.second.creator.Index2 == Index2))
+__CPROVER_ensures((Index1 == g_X.Index1 && Index2 == g_X.Index2 && __CPROVER_old(EM.gpresent)) ==> (g_created == 0 && gpair_same(EM.g, __CPROVER_old(EM.g))))
+__CPROVER_ensures((Index1 == g_X.Index1 && Index2 == g_X.Index2 && !__CPROVER_old(EM.gpresent)) ==> (g_created == 1 && g_created_for.Index1 == Index1 && g_created_for.Index2 == Index2 && __CPROVER_return_value == g_created_el))
+__CPROVER_ensures(!(Index1 == g_X.Index1 && Index2 == g_X.Index2) ==> (EM.gpresent == __CPROVER_old(EM.gpresent) && (!EM.gpresent || gpair_same(EM.g, __CPROVER_old(EM.g)))))
+//@end
+//@harness h_IC2C_call_ij enforce=IC2C_call_ij replace=IC2C_call props=C01 min_obl=424 reach=2 timeout=300
+void h_IC2C_call_ij(void)
+{
+  struct GFContainer *c; unsigned int i, j;
+  struct GreensFunction *r = IC2C_call_ij(c, i, j);
+  if (g_created) REACH("miss"); else REACH("hit");
+}
+//@function Pomerol::IndexContainer2<Pomerol::GreensFunction, Pomerol::GFContainer>::isInContainer(unsigned int, unsigned int) const as IC2C_isInContainer_ij
+//@contract
+__CPROVER_requires(__CPROVER_is_fresh(self, sizeof(*self)))
+__CPROVER_assigns()
+__CPROVER_ensures((Index1 == g_X.Index1 && Index2 == g_X.Index2) ==> __CPROVER_return_value == (EM.gpresent != 0))
+//@end
+//@harness h_IC2C_isInContainer_ij enforce=IC2C_isInContainer_ij replace=IC2C_isInContainer props=C01 min_obl=62 reach=1 timeout=120
+void h_IC2C_isInContainer_ij(void)
+{
+  struct GFContainer *c; unsigned int i, j;
+  _Bool r = IC2C_isInContainer_ij(c, i, j);
+  REACH("exit");
+}
+
 /* ======================= GFContainer::prepareAll, computeAll =======================
  * (g: entry X of ElementsMap, arbitrary => every entry)  prepareAll(I): INV afterwards; every key listed in I is present; the element of
  * entry X is prepared exactly once (prepare() returns normally => Status >= Prepared); an operator that is not prepared makes
@@ -367,7 +403,8 @@ void h_GFC_computeAll(void)
  *   modified (frame: only the model's scratch entry is written).
  * History: INV is pre- and post-condition of set / operator() / computeAll and is established by fill / prepareAll from any state =>
  *   it holds after every sequence of these calls.
- * NOT proved: the two-index convenience overloads operator()(i,j), isInContainer(i,j) (one-line forwards); enumerateInitialIndices
+ * h_IC2C_call_ij / h_IC2C_isInContainer_ij: the two-index overloads forward the pair (i,j) in this order (callee replaced by its contract).
+ * NOT proved: enumerateInitialIndices
  *   (contents of the default index set); release of replaced elements (shared_ptr reference counting is not modelled).
  *
  * ASSUMPTIONS / TRUSTED MODELS: std::map ghost-key model incl. operator[] and the iteration view (see the model comment); std::set
@@ -387,4 +424,6 @@ void h_GFC_computeAll(void)
  *   prepareAll: prepare() -> compute()                                 -> GreensFunction_compute.assigns.2, invariant step (..._wrapped_for_contract_checking.6)
  *         fill() removed                                               -> GFC_prepareAll.postcondition.1/.2, GFPtr_arrow.assertion.1
  *   computeAll: compute() -> prepare()                                 -> GreensFunction_prepare.assigns.2, invariant step (.6/.7)
+ *   operator()(i,j): IndexCombination2(Index2,Index1)                  -> IC2C_call_ij.postcondition.2-.5
+ *   isInContainer(i,j): IndexCombination2(Index1,Index1)               -> IC2C_isInContainer_ij.postcondition.1
  */
